@@ -631,3 +631,23 @@ Section SameBehaviourOutside.
     unfold view_outside. rewrite M1, M2, M3, M4, M5, C. reflexivity.
   Qed.
 End SameBehaviourOutside.
+
+(* "cloning any agent at any point of its life": the faithfulness theorem applies to every member of every
+   population reachable from a separated one *)
+Lemma reachable_bounded w0 ops i a :
+  WF w0 -> nth_error (w_pop (run w0 ops)) i = Some a -> bounded (w_store (run w0 ops)) (agent_locs a).
+Proof.
+  intros H Hi. destruct (run_WF ops w0 H) as [_ B]. apply Forall_forall. intros l Hl.
+  unfold bounded in B. rewrite Forall_forall in B. apply B. apply (in_all_locs _ i a l Hi Hl).
+Qed.
+
+Theorem clone_faithful_reachable_lemma w0 ops i a idx :
+  WF w0 -> nth_error (w_pop (run w0 ops)) i = Some a ->
+  let s := w_store (run w0 ops) in
+  let r := clone_agent idx s a in
+  let K := kExt :: resync_keys (a_reg a) in
+  map fst (a_blocks (snd r)) = map fst (a_blocks a) /\
+  contents (fst r) (keep_out K (a_blocks (snd r))) = contents s (keep_out K (a_blocks a)) /\
+  (In kExt (map fst (a_blocks a)) -> map (rd (fst r)) (blk (snd r) kExt) = map (rd s) (blk a kExt)) /\
+  same_meta a (snd r).
+Proof. intros H Hi. apply clone_faithful_lemma. eapply reachable_bounded; eauto. Qed.
